@@ -212,6 +212,13 @@ func (p *rawPeer) caller() {
 		case 4: // notification and a cancel for an id that may or may not exist
 			p.write(fmt.Sprintf(`{"jsonrpc":"2.0","method":"echo","params":{"nonce":%d}}`, nonce))
 			p.write(fmt.Sprintf(`{"jsonrpc":"2.0","method":"cancel","params":{"id":%d}}`, 7000+i-1))
+		case 6: // an asynchronously answered request is still open when A starts closing; then its id is reused
+			id := fmt.Sprint(9000 + i)
+			p.sent = append(p.sent, &rawReq{id: id, method: "async", nonce: nonce}, &rawReq{id: id, method: "echo", nonce: nonce + 1})
+			p.write(fmt.Sprintf(`{"jsonrpc":"2.0","id":%s,"method":"async","params":{"nonce":%d}}`, id, nonce))
+			r.aClosing.Wait("raw.caller waits for A to start closing")
+			p.write(fmt.Sprintf(`{"jsonrpc":"2.0","id":%s,"method":"echo","params":{"nonce":%d}}`, id, nonce+1))
+			r.sim.Fault("peer:duplicate-request-id-while-closing")
 		case 5: // a response nobody asked for
 			// (an id A never uses: whether a response that races with the
 			// registration of a call counts is undecidable from outside)
